@@ -8,11 +8,11 @@ export GOFLAGS=-mod=mod GOPROXY=off GOSUMDB=off GOTOOLCHAIN=local
 wt=$(mktemp -d /tmp/hvseed-XXXXXX)
 out=$(mktemp -d /tmp/hvout-XXXXXX)
 git -C /repo worktree add -q --detach "$wt" HEAD || exit 2
-trap 'git -C /repo worktree remove --force "$wt" >/dev/null 2>&1; rm -rf "$out"' EXIT
+trap 'git -C /repo worktree remove --force "$wt" >/dev/null 2>&1; [ -n "${KEEP_OUT:-}" ] && cp -r "$out/replays" "$KEEP_OUT" 2>/dev/null; rm -rf "$out"' EXIT
 if ! git -C "$wt" apply "$seed/patch.diff" 2>/dev/null; then
   if ! (cd "$wt" && patch -p1 --fuzz=3 -s < "$seed/patch.diff"); then echo "PATCH-DOES-NOT-APPLY $seed"; exit 2; fi
 fi
-HV_REPO="$wt" HV_OUT="$out" /verif/bin/hv check --property "$prop" > "$out/log" 2>&1
+HV_REPO="$wt" HV_OUT="$out" ${HV_BIN:-/verif/bin/hv} check --property "$prop" > "$out/log" 2>&1
 rc=$?
 grep -E "^(VIOLATION|UNDECIDED|OK|KNOWN)" "$out/log" | head -5
 grep -E "^  obligation" "$out/log" | head -3
